@@ -763,7 +763,7 @@ def cases(tier, rng):
                         continue
                     yield mk_step(pattern_events(toks, sizes, pat), k)
     # ---- random step cases
-    nstep = 250 if quick else 6000
+    nstep = 160 if quick else 6000
     for _ in range(nstep):
         nl = rng.choice([1, 2, 2, 3, 4])
         toks = inject_cpr(rng, rand_script(rng, nl, rich=True), p=rng.choice([0, 0.1, 0.3]))
@@ -772,7 +772,7 @@ def cases(tier, rng):
             k = max(1, k - 1)              # fewer prompts than lines: the rest must stay unconsumed
         yield mk_step(rand_events(rng, toks, k), k)
     # ---- end to end
-    ne2e = 260 if quick else 7000
+    ne2e = 200 if quick else 7000
     modes = ["pre", "thread", "threadbytes", "async"]
     for i in range(ne2e):
         mode = modes[i % 4]
@@ -781,7 +781,7 @@ def cases(tier, rng):
         k = fins(toks)
         yield mk_e2e(rng, mode, toks, k)
     # ---- long lines: more than one 1024-byte read per line
-    nbig = 6 if quick else 60
+    nbig = 3 if quick else 60
     for i in range(nbig):
         toks = []
         nl = rng.choice([2, 3])
